@@ -83,7 +83,8 @@ static void write_files(const Scenario &s, vfh::Rng &rng) {
 static std::streambuf *g_cout_buf = nullptr, *g_cerr_buf = nullptr;
 struct RunOut { int rc; std::vector<Rec> log; vfsched::Result sr; int begin_calls, end_calls; };
 
-static RunOut run_once(const Scenario &s, int nt, uint64_t sseed, int strategy, int depth, int starve) {
+static RunOut run_once(const Scenario &s, int nt, uint64_t sseed, int strategy, int depth, int starve,
+                       const std::vector<int> *prefix = nullptr, int pbound = -1) {
   MonApp app;
   app.ordered_ = s.ordered;
   std::vector<std::string> a = {"c05mon", "--top", s.top, "--trj", s.trj, "--nt", std::to_string(nt), "--first-frame", std::to_string(s.first_frame)};
@@ -93,6 +94,8 @@ static RunOut run_once(const Scenario &s, int nt, uint64_t sseed, int strategy, 
   vfsched::Config c;
   c.seed = sseed; c.strategy = strategy; c.pct_depth = depth; c.starve_slot = starve;
   c.ordered = s.ordered; c.expect_frames = s.expected(); c.expect_error = s.too_short();
+  if (prefix) c.prefix = *prefix;
+  c.preemption_bound = pbound;
   // silence the application's chatter
   std::streambuf *oc = std::cout.rdbuf(), *oe = std::cerr.rdbuf();
   g_cout_buf = oc; g_cerr_buf = oe;
@@ -135,6 +138,67 @@ int main(int argc, char **argv) {
     _exit(0);
   };
 
+  if (A.has("enumerate")) {
+    // systematic enumeration (stateless DFS over the scheduler's decisions) of ALL interleavings of small
+    // configurations, optionally with a preemption bound: --enumerate "nt,frames,first,nframes,ordered,bound"
+    std::istringstream es(A.str("enumerate"));
+    std::string tok;
+    std::vector<int> p;
+    while (std::getline(es, tok, ',')) p.push_back(std::atoi(tok.c_str()));
+    Scenario s;
+    s.nbeads = 2; s.nt = p[0]; s.nframes_file = p[1]; s.first_frame = p[2]; s.nframes_opt = p[3]; s.ordered = p[4] != 0;
+    int bound = p.size() > 5 ? p[5] : -1;
+    long maxruns = A.num("maxruns", 200000);
+    for (int f = 0; f < s.nframes_file; ++f) s.steps.push_back(10 * (f + 1));
+    s.top = work + "/etop_" + std::to_string(shard) + ".xml";
+    s.trj = work + "/etrj_" + std::to_string(shard) + ".dump";
+    write_files(s, rng);
+    cur_scn = s.json().str();
+    RunOut ref = run_once(s, 1, 1, vfsched::UNIFORM, 0, 1);
+    std::vector<int> prefix;
+    long runs = 0;
+    bool complete = false;
+    std::set<uint64_t> seen;
+    while (runs < maxruns) {
+      {
+        J sj; sj.i("nt", s.nt).s("strategy", "dfs").vec("prefix", prefix).i("preemption_bound", bound);
+        cur_sched = sj.str();
+      }
+      RunOut o = run_once(s, s.nt, 1, vfsched::DFS_REPLAY, 0, 0, &prefix, bound);
+      ++runs;
+      R.eval(s.ordered ? "enumerated_ordered" : "enumerated_unordered");
+      events += (long)o.sr.trace.size();
+      if (seen.insert(o.sr.interleaving_hash).second && o.sr.max_enabled >= 2) R.nontrivial(vfh::hmix(o.sr.interleaving_hash, vfh::hstr(7, cur_scn)));
+      for (auto &v : o.sr.violations) {
+        auto bar = v.find('|');
+        J w; w.raw("scenario", cur_scn).raw("schedule", cur_sched).s("detail", v.substr(bar + 1)).s("trace_tail", vfsched::render(o.sr, 250));
+        R.violation("sched/" + v.substr(0, bar), v.substr(bar + 1), w);
+      }
+      if (!s.too_short()) {
+        bool same;
+        if (s.ordered) same = (o.log == ref.log);
+        else { auto a = o.log, b = ref.log; std::sort(a.begin(), a.end()); std::sort(b.begin(), b.end()); same = (a == b); }
+        if (o.rc != 0 || !same) R.violation(s.ordered ? "output/ordered-differs-from-nt1" : "output/unordered-frame-set-differs-from-nt1", "merged result differs from the single-thread run", J().raw("scenario", cur_scn).raw("schedule", cur_sched).s("trace_tail", vfsched::render(o.sr, 250)));
+      }
+      // next prefix: last decision with an untried alternative
+      const auto &ci = o.sr.choice_index; const auto &cc = o.sr.choice_count;
+      long k = (long)ci.size() - 1;
+      while (k >= 0 && ci[k] + 1 >= cc[k]) --k;
+      if (k < 0) { complete = true; break; }
+      prefix.assign(ci.begin(), ci.begin() + k);
+      prefix.push_back(ci[k] + 1);
+    }
+    R.counter("enumeration_runs", runs);
+    R.counter(complete ? "enumerations_complete" : "enumerations_truncated", 1);
+    R.counter("events", events);
+    R.counter("distinct_interleavings", (long long)seen.size());
+    {
+      J sj; sj.raw("scenario", cur_scn).i("preemption_bound", bound).i("runs", runs).b("complete", complete).i("distinct_interleavings", (long long)seen.size());
+      R.sample(sj);
+    }
+    R.summary();
+    return 0;
+  }
   for (long is = 0; is < nscen; ++is) {
     Scenario s;
     s.nbeads = (int)rng.range(2, 6);
